@@ -69,6 +69,12 @@ def tasks(tier):
         cfg = dict(M=4, alphabet=["ok", "x:T", "r:T"], attempt_hooks="call", max_unknown=None,
                    timeline=True, faults=[("astart", idx, "RuntimeError")], strat_menu=[1])
         out.append({"family": "stream-start-hook-fault", "cfg": cfg, "entry": e, "bound": 0})
+    # a sleep handler answering the plain strings "defer" / "abort" / "sleep" instead of the enum
+    # members: whatever the library makes of that, the stream keeps its shape
+    for ans, e in itertools.product(["S:defer", "S:abort", "S:sleep"], RETRY_ENTRIES):
+        cfg = dict(M=3, alphabet=["ok", "x:T", "r:T"], handler="call", handler_menu=[ans],
+                   timeline=True, operation="opname", max_unknown=None)
+        out.append({"family": "stream-string-answer", "cfg": cfg, "entry": e, "bound": 0})
     # only one of the sinks attached (the timeline must not depend on a metric hook)
     for metric, log in [(False, True), (True, False), (False, False)]:
         cfg = dict(M=3, alphabet=ALPHA, abort=True, handler="call", timeline=True, metric=metric,
@@ -137,6 +143,9 @@ def _stream(w, cfg):
                                for r in call.records if r[0] == "fault")
         if fin.cancelled or fin.nested or (fin.faulted and not hook_faults_only):
             continue
+        if (end[1] == "raise" and end[2] in ("ValueError", "TypeError")
+                and any(r[0] == "handler" and str(r[4]).startswith(("S:", "BAD")) for r in call.records)):
+            continue   # the library rejected an invalid handler answer: not a normally-ending run
         metrics = [r for r in call.records if r[0] == "metric" and not r[1].startswith("circuit_")]
         logs = [r for r in call.records if r[0] == "log" and not r[1].startswith("circuit_")]
         rejected = any(r[0] == "brk" and r[1] == "allow" and not r[3][0] for r in call.records)
